@@ -17,18 +17,19 @@ TRUSTED = ["z3", "fake kernel contract (DESIGN 4)", "CPython subprocess (execute
 ASSUMPTIONS = ["eager SIGCHLD delivery", "git disabled, --again (no cache)"]
 
 
-def make(n, kinds, jobs_hi, orders="rev", ambient_bit=True):
+def make(n, kinds, jobs_hi, orders="rev", ambient_bit=True, launch=True, all_ok=False, jobs_lo=1):
     def fn(g):
         specs = graphs.sym_graph(g, n, kinds, orders=orders)
         root = n - 1
-        jobs = g.fresh_int("jobs", 1, jobs_hi, opaque=False)
+        jobs = g.fresh_int("jobs", jobs_lo, jobs_hi, opaque=False)
         ambient = g.flag("ambient_slot") if ambient_bit else False
         import os
         env = dict(os.environ)
         env.pop("COND_SLOT", None)
         if ambient:
             env["COND_SLOT"] = "7"
-        sched = graphs.SymSched(g, on_spawn=graphs.output_writer)
+        sched = graphs.SymSched(g, on_spawn=graphs.output_writer, launch_failures=launch, max_fail=1 if launch else None,
+                                all_ok=all_ok)
         res = graphs.run_graph(g, specs, root, again=True, jobs=jobs, sched=sched, env=env)
         try:
             graphs.crash_check(g, res, specs)
@@ -77,7 +78,11 @@ def spaces(tier):
     goals = ["two tasks in parallel slots", "slot recycled after a completion", "sequential and parallelizable tasks in one run"]
     sp = [Space("n3-allkinds-j2", make(3, graphs.ALL_KINDS, 2),
                 "N<=3, every edge set, deps forward/reversed, 4 kinds, par bits, jobs 1..2 (symbolic), every completion "
-                "order, symbolic exit statuses, ambient COND_SLOT bit", depth=8, goals=goals, outside=["N>3", "jobs>2"])]
+                "order, at most one failure (symbolic exit status or failed launch), ambient COND_SLOT bit", depth=8,
+                goals=goals, outside=["N>4", "jobs>3"]),
+          Space("n4-cmd-j2", make(4, ("run_command",), 2, ambient_bit=False, launch=False, all_ok=True, jobs_lo=2),
+                "N=4 run_command tasks, every edge set, deps forward/reversed, par bits, --jobs 2, every completion order, all succeed",
+                depth=10)]
     if tier == "thorough":
         sp.append(Space("n4-subprocess-j3", make(4, ("run_experiment", "run_command"), 3, ambient_bit=False),
                         "N=4, kinds {run_experiment, run_command}, jobs 1..3, every completion order", depth=10, tiers=("thorough",)))
